@@ -64,7 +64,9 @@ pub fn duplicate_cte_class(text: &str) -> &'static str {
     while let Some(p) = text[i..].find(" AS (") {
         let at = i + p;
         // walk back over `("cols")` and the quoted name
-        if let Some(open) = text[..at].rfind(" (") { let name = text[..open].rsplit(|c| c == ' ').next().unwrap_or("").to_string(); if name.starts_with('"') || name.starts_with('`') { heads.push((name, at + 5)); } }
+        // (BigQuery and Hive write no column list: the name stands right before ` AS (`)
+        if !text[..at].ends_with(')') { let name = text[..at].rsplit(|c| c == ' ').next().unwrap_or("").to_string(); if name.starts_with('"') || name.starts_with('`') { heads.push((name, at + 5)); } }
+        else if let Some(open) = text[..at].rfind(" (") { let name = text[..open].rsplit(|c| c == ' ').next().unwrap_or("").to_string(); if name.starts_with('"') || name.starts_with('`') { heads.push((name, at + 5)); } }
         i = at + 5;
     }
     let _ = bytes;
@@ -136,6 +138,9 @@ pub fn eval(case: &J) -> Outcome {
     for d in DIALECTS {
         let r = per_dialect_in(&rel, d, &rels);
         let text = match r.text { Ok(t) => t, Err((loc, msg)) => { out.fail(&format!("C18/dialect/{d}/render-panic/{}", site(&loc, &msg)), format!("{sql}: {msg}")); continue; } };
+        // a WITH clause that declares one name twice with two bodies is the recorded collision of 4-character content-derived names: whatever
+        // reads the text (an engine, a parser that tolerates it, the library's reader taking the first) then sees another query
+        let shape = if duplicate_cte_class(&text) == "cte-name-collision" { "cte-name-collision" } else { shape };
         if let Err(e) = r.accepted { out.fail(&format!("C17/dialect/{d}/not-accepted/{shape}"), format!("{sql} (columns {:?}) rendered for {d} as {text} is rejected by the {d} parser: {e}", sig.iter().map(|x| &x.0).collect::<Vec<_>>())); continue; }
         match r.readback {
             None => {}
@@ -248,7 +253,8 @@ fn fn_relation(name: &str) -> Option<(Relation, qrlew::hierarchy::Hierarchy<std:
     let rels: qrlew::hierarchy::Hierarchy<Arc<Relation>> = vec![(vec!["tf".to_string()], Arc::new(tf.clone()))].into_iter().collect();
     let (_, f, cat) = crate::s_fn::function_table().into_iter().find(|(n, _, _)| *n == name)?;
     let args: Vec<Arc<Expr>> = cat.chars().map(|c| Arc::new(Expr::col(match c { 'n' => "f", 'i' | 'c' | 'x' => "i", 'b' => "b", 't' => "t", 'd' => "d", _ => "i" }))).collect();
-    let e = Expr::Function(qrlew::expr::Function::new(f, args));
+    // `x IN l`: in SQL the list is always a literal tuple (a list-typed column can only come from the builders)
+    let e = if name == "InList" { Expr::in_list(Expr::col("i"), Expr::list([1i64, 2, 5])) } else { Expr::Function(qrlew::expr::Function::new(f, args)) };
     match guarded(|| -> Result<Relation, String> { Relation::map().with(("r", e.clone())).input(tf.clone()).try_build().map_err(|e: qrlew::relation::Error| e.to_string()) }) { Ok(Ok(r)) => Some((r, rels)), _ => None }
 }
 
